@@ -7,6 +7,7 @@ All theorems quantify over EVERY definition `d` of the definition language (any 
 building blocks, any nesting depth, any number of sequence items) — not only depth ≤ 3.
 -/
 import OsmoVerif.Lemmas.CodecErr
+import OsmoVerif.Lemmas.CodecTyped
 
 namespace OsmoVerif.Props.C16
 open OsmoVerif OsmoVerif.Codec
@@ -164,6 +165,27 @@ theorem errors_own_decode (d : EnvDef) (b : List Nat) (e : Err) (hw : WF d)
     · rw [if_pos hc] at h; simp only [Except.error.injEq] at h; exact .inl h.symm
     · rw [if_neg hc] at h; cases h
 
+/-- when, in addition, every length callback reads a field that can only hold a non-negative int
+(`RefsOK`: bit-fields, unsigned integers with non-negative offset and multiplier), decoding ANY octet
+string either succeeds or raises `DecodeError` — nothing else, for every definition at any depth. -/
+theorem errors_own_decode_strict (d : EnvDef) (b : List Nat) (e : Err) (hw : WF d) (hr : RefsOK d)
+    (h : fromBytes d b = .error e) : e = .decode := by
+  rcases errors_own_decode d b e hw h with h1 | h1
+  · exact h1
+  · subst h1
+    simp only [fromBytes] at h
+    cases he : envFrom d.fs [] b 0 with
+    | error e' =>
+      simp only [he, tailCheck, Except.error.injEq] at h
+      subst h
+      exact absurd rfl (envNU d.fs hw.1 hr hw.2 b 0 _ he)
+    | ok r =>
+      obtain ⟨v', n'⟩ := r
+      simp only [he, tailCheck] at h
+      by_cases hc : d.checkLen = true ∧ b.length ≠ n'
+      · rw [if_pos hc] at h; cases h
+      · rw [if_neg hc] at h; cases h
+
 /-- encoding with a well-formed definition never raises anything but `EncodeError` (missing key, integer
 that does not fit, wrong buffer length, division by zero … are all wrapped). `unmodelled` = a value of
 the wrong Python type for its field. -/
@@ -306,6 +328,7 @@ def exampleDef : EnvDef := ⟨true, [
     .buf "v" .always (.ofField "l")]]⟩
 
 example : WF exampleDef := by decide
+example : RefsOK exampleDef := by decide
 
 def exampleVal : Vals := [
   ("ver", .int 2), ("flag", .int 0), ("code", .int 1), ("len", .int 2), ("temp", .int (-43)),
